@@ -420,6 +420,11 @@ TRUSTED = ['struct.unpack / bytes slicing / str methods of CPython as modelled i
            'tools/gen/gen_insp.py: positional extraction of literals and struct formats (fail-closed on any change of shape)']
 ASSUMPTIONS = ['region_complete callbacks run in dictionary order in the model (Python iterates a set); at most one region per inspector has a non-trivial callback',
                'logging calls are not modelled (their arguments are: see qcow_feature_loop)']
-LEVEL_TEXT = ('Executable Coq model of the capture engine and all ten inspectors, validated against the implementation after every chunk '
-              '(exception, format_match, complete, virtual_size, safety outcome, position, every region\'s offset/length/retained bytes).')
-LEVEL_NOTE = 'Engine theorems and the refinement of the eight static inspectors: see notes/INSP.md.'
+LEVEL_TEXT = ('Proved for all byte strings and all chunk lists (unbounded): (1) for all ten inspectors, in every reachable state (any chunks, empty chunks, '
+              'after an exception, after finish) every region holds exactly the stream bytes at its offset and never more than its length; (2) for the eight '
+              'inspectors whose regions come from _initialize (raw, qcow2, qed, vhd, vdi, iso, gpt, luks) the whole final state, hence format_match / complete / '
+              'virtual_size / safety and the absence of exceptions, is a function of the concatenated bytes alone (chunking-independent, empty chunks irrelevant); '
+              '(3) region-level capture_slice and end_capture_tail; (4) the py2gal translations of CaptureRegion.capture/complete and EndCaptureRegion.capture equal '
+              'the model.  VMDK and VHDX verdicts are covered by correspondence + the model-free two-chunking oracle only (partial), with the known findings F1-F4 zoned.')
+LEVEL_NOTE = ('Trusted: Coq kernel; generator tools/gen/gen_insp.py (+py2gal); CPython struct/bytes/str semantics as modelled in Base/Insp_Struct.v, Base/Str.v and tied by the '
+              'every-chunk correspondence of all ten inspectors; region_complete callback order (set iteration) modelled as dictionary order. Closed under the global context.')
